@@ -90,6 +90,50 @@ LABELS = {'a': ('a', None), 'b': ('b', None), 'c': ('c', None),
           "a_{'k': 1}": ('a', {'k': 1}), "a_{'k': 2}": ('a', {'k': 2})}
 
 
+def _nest(x, depth):
+    for _ in range(depth):
+        x = [x]
+    return x
+
+
+def big_param_pairs():
+    """pairs of parameter dicts that differ in exactly one place that sits late / deep / in the middle:
+    5 and 12 keys (difference in the last sorted key / in a middle key), strings of 41 and 200 characters
+    (difference in the middle / at the very end), a list and a tuple of 10 items, nesting 8 deep"""
+    p5 = {'alpha': 1, 'beta': 2, 'gamma': 3, 'delta': 4, 'zeta': 5}
+    p12 = {'k%02d' % i: i for i in range(12)}
+    return [
+        (p5, dict(p5, zeta=6)),
+        (p12, dict(p12, k11=99)),
+        (p12, dict(p12, k05=99)),
+        ({'s': 'x' * 20 + 'A' + 'x' * 20}, {'s': 'x' * 20 + 'B' + 'x' * 20}),
+        ({'s': 'y' * 100 + 'M' + 'y' * 99}, {'s': 'y' * 100 + 'N' + 'y' * 99}),
+        ({'s': 'z' * 199 + '1'}, {'s': 'z' * 199 + '2'}),
+        ({'l': list(range(10))}, {'l': list(range(8)) + [80, 9]}),
+        ({'t': tuple(range(10))}, {'t': tuple(range(9)) + (90,)}),
+        ({'d': _nest(1, 8)}, {'d': _nest(2, 8)}),
+        ({'m': {'a': 1, 'b': {'c': list(range(7)), 'd': 'w' * 35}}}, {'m': {'a': 1, 'b': {'c': list(range(6)) + [60], 'd': 'w' * 35}}}),
+    ]
+
+
+BIG_PAIRS = big_param_pairs()
+BIG_PARAMS = []
+for _pa, _pb in BIG_PAIRS:
+    for _p in (_pa, _pb):
+        if repr(_p) not in [repr(q) for q in BIG_PARAMS]:
+            BIG_PARAMS.append(_p)
+BIG_PARTNER = {}
+for _pa, _pb in BIG_PAIRS:
+    BIG_PARTNER.setdefault(repr(_pa), _pb)
+    BIG_PARTNER.setdefault(repr(_pb), _pa)
+# tokens of the tree pools for them: name 'm', the token is what description() renders after 'n_'
+BIG_TOKENS = []
+for _p in BIG_PARAMS:
+    _tok = 'm_%s' % (_p,)
+    LABELS[_tok] = ('m', _p)
+    BIG_TOKENS.append(_tok)
+
+
 def build_tree_node(t, protos=None):
     """protos (a dict) given: every node is a deepcopy of one prototype node per label, so all nodes of the
     tree that carry the same label are distinct objects sharing one uid (deepcopy keeps uids)"""
@@ -127,6 +171,72 @@ def tree_size(t):
 def py_canon(t):
     """diagnostic only (to name the offending pair in a replay); the oracle is Coq's"""
     return (t[0], tuple(sorted(py_canon(c) for c in t[1])))
+
+
+# ---- large trees (17-60 nodes): isomorphic presentations next to locally similar non-isomorphic ones
+def random_big_tree(rng, n, alpha):
+    """labels[i], kids[i]; node 0 is the root"""
+    labels = [rng.choice(alpha) for _ in range(n)]
+    kids = [[] for _ in range(n)]
+    for i in range(1, n):
+        p = rng.choice([i - 1, rng.randrange(i), rng.randrange(i), rng.randrange(max(0, i - 4), i)])
+        kids[p].append(i)
+    return labels, kids
+
+
+def nested(labels, kids, v=0):
+    return (labels[v], tuple(nested(labels, kids, c) for c in kids[v]))
+
+
+def below(kids, v):
+    out, stack = {v}, [v]
+    while stack:
+        for c in kids[stack.pop()]:
+            out.add(c)
+            stack.append(c)
+    return out
+
+
+def exchange_branches(rng, labels, kids):
+    """a locally similar tree: every node keeps its label and the multiset of labels of its children (the
+    multiset of node neighbourhoods is unchanged), but branches move between equally labelled places:
+    (a) two equally labelled nodes, neither below the other, exchange their whole children lists, or
+    (b) two nodes hand each other one child, the two children being equally labelled.  None if no such place"""
+    n = len(labels)
+    for _ in range(60):
+        u, w = rng.sample(range(n), 2)
+        if u in below(kids, w) or w in below(kids, u):
+            continue
+        new = [list(k) for k in kids]
+        if rng.random() < 0.5:
+            if labels[u] != labels[w] or (not kids[u] and not kids[w]):
+                continue
+            new[u], new[w] = list(kids[w]), list(kids[u])
+            return new
+        if not kids[u] or not kids[w]:
+            continue
+        cu, cw = rng.choice(kids[u]), rng.choice(kids[w])
+        if labels[cu] != labels[cw]:
+            continue
+        new[u][new[u].index(cu)] = cw
+        new[w][new[w].index(cw)] = cu
+        return new
+    return None
+
+
+def big_tree_pool(rng, families):
+    trees = []
+    for _ in range(families):
+        n = rng.choice([17, 18, 20, 24, 30, 40, 60])
+        labels, kids = random_big_tree(rng, n, rng.choice(['ab', 'ab', 'abc']))
+        trees.append(nested(labels, kids))
+        for _ in range(2):          # isomorphic presentations
+            trees.append(nested(labels, [rng.sample(k, len(k)) for k in kids]))
+        for _ in range(3):          # locally similar, usually not isomorphic (Coq decides)
+            new = exchange_branches(rng, labels, kids)
+            if new is not None:
+                trees.append(nested(labels, [rng.sample(k, len(k)) for k in new]))
+    return trees
 
 
 _W = {}
@@ -247,16 +357,18 @@ NAMES = ['a', 'b', 'c', 'ab', 'a_b', 'n', 'scaling', 'a;b', 'x(y', 'z)', 'p/q', 
 # renders every name that is not None through str()
 NONSTR = [0, False, 0.0, 1, 2, True, 2.5]
 PARAMS = [None, None, None, {}, {'k': 1}, {'k': 2}, {'a': 1, 'b': 'x'}, {'t': (1, 2)}, {'s': 'a;b)/('}, {'n': None}]
+PARAMS_BIG = PARAMS + BIG_PARAMS       # used by a quarter of the dag triples
 
 
 def p_key(p):
     return None if p is None else repr(p)
 
 
-def random_spec(rng, n, single_sink, names, params_on, tree=False):
+def random_spec(rng, n, single_sink, names, params_on, tree=False, params=None):
     """spec = list of [name, params, parents] ; node 0 is a sink; every node j > 0 gets its children
     among the nodes before it, so the graph is acyclic"""
-    spec = [[rng.choice(names), (rng.choice(PARAMS) if params_on else None), []] for _ in range(n)]
+    spec = [[rng.choice(names), (deepcopy(rng.choice(params or PARAMS)) if params_on else None), []]
+            for _ in range(n)]
     for j in range(1, n):
         k = 1 if tree else (rng.choice([1, 1, 1, 2, 2, 3]) if (single_sink or rng.random() < 0.75) else 0)
         for child in rng.sample(range(j), min(k, j)):
@@ -397,7 +509,10 @@ def mutate_spec(rng, spec, names):
         spec[i][0] = rng.choice([x for x in names + ['zz'] if x != spec[i][0]])
     elif kind == 'params':
         i = rng.randrange(n)
-        spec[i][1] = rng.choice([p for p in PARAMS if p_key(p) != p_key(spec[i][1])])
+        if p_key(spec[i][1]) in BIG_PARTNER and rng.random() < 0.8:
+            spec[i][1] = deepcopy(BIG_PARTNER[p_key(spec[i][1])])      # differs in one late key / middle character
+        else:
+            spec[i][1] = rng.choice([p for p in PARAMS_BIG if p_key(p) != p_key(spec[i][1])])
     elif kind == 'add-edge' and n >= 2:
         i = rng.randrange(n - 1)
         j = rng.randrange(i + 1, n)
@@ -479,6 +594,45 @@ def graph_from_snapshot(snap, cname='OptGraph'):
     return g
 
 
+def acyclic_spec(spec):
+    state = [0] * len(spec)
+
+    def visit(v):
+        stack = [(v, iter(spec[v][2]))]
+        state[v] = 1
+        while stack:
+            x, it = stack[-1]
+            for p in it:
+                if state[p] == 1:
+                    return False
+                if state[p] == 0:
+                    state[p] = 1
+                    stack.append((p, iter(spec[p][2])))
+                    break
+            else:
+                state[x] = 2
+                stack.pop()
+        return True
+    return all(state[v] == 2 or visit(v) for v in range(len(spec)))
+
+
+def exchange_spec(rng, spec):
+    """near-miss for large graphs: two nodes with the same name and params exchange their whole parent lists
+    (the multiset of node neighbourhoods is unchanged); None when no acyclic exchange is found"""
+    n = len(spec)
+    for _ in range(60):
+        u, w = rng.sample(range(n), 2)
+        if spec[u][0] != spec[w][0] or p_key(spec[u][1]) != p_key(spec[w][1]):
+            continue
+        if sorted(spec[u][2]) == sorted(spec[w][2]) or u in spec[w][2] or w in spec[u][2]:
+            continue
+        new = [[s[0], s[1], list(s[2])] for s in spec]
+        new[u][2], new[w][2] = list(spec[w][2]), list(spec[u][2])
+        if acyclic_spec(new):
+            return new
+    return None
+
+
 def make_cyclic(rng, spec):
     """outside the property's scope, used to validate the model only: close a cycle by making a node a
     parent of one of its ancestors (or of itself)"""
@@ -497,19 +651,33 @@ def make_cyclic(rng, spec):
     return spec
 
 
-def run_dags(ctx, n_triples):
+def run_dags(ctx, n_triples, n_large=0):
     rng = ctx.rng
     cases, meta = [], []
+    step = max(2, n_triples // n_large) if n_large else 0
     for it in range(n_triples):
         n = rng.choice([1, 2, 3, 3, 4, 4, 5, 5, 6, 6, 7, 8, 9, 10])
         single = rng.random() < 0.5
         names = rng.choice([NAMES[:2], NAMES[:3], NAMES[:6], NAMES, NONSTR, NONSTR[:3] + NAMES[:2]])
         params_on = rng.random() < 0.5
-        spec = random_spec(rng, n, single, names, params_on)
+        spec = random_spec(rng, n, single, names, params_on, params=PARAMS_BIG if rng.random() < 0.25 else None)
         flavour = 'dag'
         dups = {}
         r = rng.random()
-        if r < 0.04:
+        if step and it % step == 1:
+            # a large tree (17-60 nodes), half of the time with one or two extra links (a DAG with shared nodes)
+            n = rng.choice([17, 18, 20, 25, 30, 40, 60])
+            single = True
+            names = rng.choice([NAMES[:2], NAMES[:3]])
+            spec = random_spec(rng, n, True, names, rng.random() < 0.3, tree=True)
+            if rng.random() < 0.5:
+                for _ in range(rng.choice([1, 2])):
+                    c = rng.randrange(n - 1)
+                    j = rng.randrange(c + 1, n)
+                    if j not in spec[c][2]:
+                        spec[c][2].append(j)
+            flavour = 'large'
+        elif r < 0.04:
             spec = make_cyclic(rng, spec)
             flavour = 'cyclic'
         elif r < 0.07:
@@ -540,6 +708,10 @@ def run_dags(ctx, n_triples):
             claim23 = True
         else:
             spec3, how3 = mutate_spec(rng, spec, names) if spec else ([['a', None, []]], 'add-node')
+            if flavour == 'large' and rng.random() < 0.8:
+                ex = exchange_spec(rng, spec)
+                if ex is not None:
+                    spec3, how3 = ex, 'exchange-parent-lists'
             # the near-miss keeps the shared uids half of the time
             g3, nodes3 = build(spec3, rng.sample(range(len(spec3)), len(spec3)), 'nodes',
                                dups if rng.random() < 0.5 else None, cname=rng.choice(CLASS_NAMES))
@@ -603,10 +775,16 @@ def run(ctx):
                 'and <=4 nodes over the 4 labels; plus a pool holding every tree <=4 (thorough <=5) nodes over {a,b} twice: '
                 'from fresh nodes and from deepcopies sharing one uid per label; plus <=3 (thorough <=4) nodes over the '
                 'names a, 0, False, 0.0 [non-string, falsy]; plus every tree <=4 nodes over {a,b} held by each of LinkedGraph, '
-                'OptGraph and a subclass of each [thorough also <=5 nodes x LinkedGraph/OptGraph]); one evaluation = one ordered pair '
+                'OptGraph and a subclass of each [thorough also <=5 nodes x LinkedGraph/OptGraph]; plus trees <=2 nodes over '
+                'the labels with big params [5/12 keys, 41/200-char strings, 10-item list/tuple, nesting 8] in pairs '
+                'differing in one late key / middle or last character; plus random large trees of 17-60 nodes in '
+                'families [tree, 2 isomorphic presentations, <=3 branch exchanges between equally labelled places]); '
+                'one evaluation = one ordered pair '
                 '(real == called); '
                 'distinct non-trivial = distinct tree with >=2 nodes (row of the pair matrix).  (b) dags: triples '
-                '(every graph held by a random one of the 4 graph classes; g1 [18%: some nodes are deepcopies of other nodes of the same graph = distinct objects with one uid], '
+                '(every graph held by a random one of the 4 graph classes; 25% draw params from a list that includes the big '
+                'ones; 30 [thorough 300] triples are large graphs of 17-60 nodes whose near-miss exchanges the parent '
+                'lists of two equally labelled nodes; g1 [18%: some nodes are deepcopies of other nodes of the same graph = distinct objects with one uid], '
                 'presentation g2 of g1 [deepcopy / relisted / parents reordered / rebuilt with fresh uids], '
                 'g3 = another presentation or a near-miss mutation); one evaluation = one unordered pair of the '
                 'triple (== observed both ways, ids of graph and of every node); non-trivial = >=2 nodes and the '
@@ -631,6 +809,18 @@ def run(ctx):
     run_tree_pool(ctx, 'trees-nonstring-names', all_trees(ctx.pick(3, 4), ['a', '0', 'False', '0.0']),
                   workers=ctx.pick(1, 6))
     ctx.set_exhaustive('trees-nonstring-names', True)
+    # parameters beyond the small sizes: 5 and 12 keys, strings of 41 / 200 characters, 10-item list / tuple,
+    # nesting 8 deep - in pairs that differ in one late key / one character in the middle or at the end
+    short = [t for t in BIG_TOKENS if len(t) < 120]
+    run_tree_pool(ctx, 'trees-big-params', all_trees(1, BIG_TOKENS) + all_trees(ctx.pick(2, 3), short)[len(short):],
+                  workers=ctx.pick(1, 6))
+    ctx.set_exhaustive('trees-big-params', True)
+    # large trees (17-60 nodes) in families: a random tree, 2 isomorphic presentations, up to 3 trees in which
+    # branches were exchanged between equally labelled places (same multiset of node neighbourhoods)
+    big = big_tree_pool(ctx.rng, ctx.budget(10, 40))
+    run_tree_pool(ctx, 'trees-large', big, workers=1,
+                  classes=[('LinkedGraph', 'OptGraph')[i % 2] for i in range(len(big))])
+    ctx.set_exhaustive('trees-large', False)
     # every small tree held by each of the graph classes (all ordered pairs: == in both directions across classes)
     base = all_trees(4, 'ab')
     run_tree_pool(ctx, 'trees-graph-classes', base * len(CLASS_NAMES), workers=ctx.pick(1, 6),
@@ -660,7 +850,7 @@ def run(ctx):
     ctx.notes.append('probe params-key-order: name q, params {a:1,b:2} vs {b:2,a:1} (equal dicts): == gives %s, ids %r / %r'
                      % (p1 == p2, p1.descriptive_id, p2.descriptive_id))
     # ---- (b)
-    run_dags(ctx, ctx.budget(1700, 36000))
+    run_dags(ctx, ctx.budget(1700, 36000), n_large=ctx.budget(30, 300))
     ctx.set_exhaustive('dags', False)
 
 
